@@ -4,7 +4,7 @@ from __future__ import annotations
 
 import copy
 
-from .core import outcome, octs
+from .core import outcome, octs, after_pack
 from .probe import decode_other
 
 KIND_ORDER = ["eof", "finished", "ack", "metadata", "nak", "prompt", "keepalive", "filedata"]
@@ -211,11 +211,14 @@ def op_cfdphdr_rt(a):
         cfglen = conf.header_len()
         o = PduHeader(PduType(h["type"]), SegmentMetadataFlag(h["segmeta"]), h["dlen"], conf)
         raw = o.pack()
-        d = PduHeader.unpack(bytes(raw) + bytes(a["sfx"]))
-        decode_other("cfdphdr", PduHeader.unpack)
-        return {"octets": octs(raw), "hlen": o.header_len, "plen": o.packet_len, "cfglen": cfglen,
-                "rawlen": AbstractPduBase.header_len_from_raw(bytes(raw)), "dec": proj_hdr(d), "dhlen": d.header_len,
-                "repack": octs(d.pack())}
+
+        def rest():
+            d = PduHeader.unpack(bytes(raw) + bytes(a["sfx"]))
+            decode_other("cfdphdr", PduHeader.unpack)
+            return {"octets": octs(raw), "hlen": o.header_len, "plen": o.packet_len, "cfglen": cfglen,
+                    "rawlen": AbstractPduBase.header_len_from_raw(bytes(raw)), "dec": proj_hdr(d), "dhlen": d.header_len,
+                    "repack": octs(d.pack())}
+        return after_pack(raw, rest)
     return outcome(run)
 
 
@@ -241,8 +244,11 @@ def op_lv_rt(a):
     def run():
         o = CfdpLv(bytes(a["v"]))
         raw = o.pack()
-        d = CfdpLv.unpack(bytes(raw) + bytes(a["sfx"]))
-        return {"octets": octs(raw), "plen": o.packet_len, "dec": octs(d.value), "dplen": d.packet_len}
+
+        def rest():
+            d = CfdpLv.unpack(bytes(raw) + bytes(a["sfx"]))
+            return {"octets": octs(raw), "plen": o.packet_len, "dec": octs(d.value), "dplen": d.packet_len}
+        return after_pack(raw, rest)
     return outcome(run)
 
 
@@ -262,10 +268,13 @@ def op_tlv_rt(a):
     def run():
         o = CfdpTlv(TlvType(a["t"]), bytes(a["v"]))
         raw = o.pack()
-        d = CfdpTlv.unpack(bytes(raw) + bytes(a["sfx"]))
-        decode_other("tlv", CfdpTlv.unpack)
-        return {"octets": octs(raw), "plen": o.packet_len, "dec": {"t": int(d.tlv_type), "v": octs(d.value)},
-                "dplen": d.packet_len, "eq": bool(d == o)}
+
+        def rest():
+            d = CfdpTlv.unpack(bytes(raw) + bytes(a["sfx"]))
+            decode_other("tlv", CfdpTlv.unpack)
+            return {"octets": octs(raw), "plen": o.packet_len, "dec": {"t": int(d.tlv_type), "v": octs(d.value)},
+                    "dplen": d.packet_len, "eq": bool(d == o)}
+        return after_pack(raw, rest)
     return outcome(run)
 
 
@@ -327,22 +336,32 @@ def _via(cls, raw, via):
 
 def op_ctlv_rt(a):
     def run():
-        o = mk_ctlv(a["cls"], a["p"])
+        return _ctlv_rt_body(a, mk_ctlv(a["cls"], a["p"]))
+    return outcome(run)
+
+
+def _ctlv_rt_body(a, o):
+    if True:
         plen = o.packet_len
         raw = o.pack()
-        d = _via(a["cls"], bytes(raw) + bytes(a["sfx"]), a.get("via", "unpack"))
-        decode_other("ctlv:" + a["cls"], lambda b: _via(a["cls"], b, a.get("via", "unpack")))
-        if type(d) is not ctlv_class(a["cls"]):
-            return {"wrongclass": type(d).__name__}
-        return {"octets": octs(raw), "plen": plen, "dec": proj_ctlv(a["cls"], d), "dplen": d.packet_len,
-                "repack": octs(d.pack()), "eq": bool(d == o), "t": int(o.tlv_type)}
-    return outcome(run)
+
+        def rest():
+            d = _via(a["cls"], bytes(raw) + bytes(a["sfx"]), a.get("via", "unpack"))
+            decode_other("ctlv:" + a["cls"], lambda b: _via(a["cls"], b, a.get("via", "unpack")))
+            if type(d) is not ctlv_class(a["cls"]):
+                return {"wrongclass": type(d).__name__}
+            return {"octets": octs(raw), "plen": plen, "dec": proj_ctlv(a["cls"], d), "dplen": d.packet_len,
+                    "repack": octs(d.pack()), "eq": bool(d == o), "t": int(o.tlv_type)}
+        return after_pack(raw, rest)
 
 
 def op_ctlv_unpack(a):
     def run():
         d = _via(a["cls"], a["octets"], a.get("via", "unpack"))
-        return {"p": proj_ctlv(a["cls"], d), "plen": d.packet_len}
+        out = {"p": proj_ctlv(a["cls"], d), "plen": d.packet_len}
+        if len(d.pack()) != d.packet_len:           # "reports its packed length correctly" also for a decoded object
+            out["repack_len"] = len(d.pack())
+        return out
     return outcome(run)
 
 
@@ -362,6 +381,10 @@ def op_pdu_rt(a):
         dflen = obj.pdu_data_field_len
         hlen = obj.header_len
         raw = obj.pack()
+        # a refusal must come from constructing / packing; octets that were emitted and then fail to decode are no refusal
+        return after_pack(raw, lambda: rest(obj, conf, params, snap, plen, dflen, hlen, raw))
+
+    def rest(obj, conf, params, snap, plen, dflen, hlen, raw):
         caller = _snapshot(conf, params) == snap
         d = pdu_class(a["kind"]).unpack(bytes(raw) + bytes(a["sfx"]))
         decode_other("pdu:" + a["kind"], pdu_class(a["kind"]).unpack)
@@ -393,6 +416,10 @@ def op_pdu_fac(a):
     def run():
         obj, conf, params, _ = mk_pdu(a["kind"], a["cfg"], a["p"])
         raw = bytes(obj.pack())
+        return after_pack(raw, lambda: rest(obj, raw))
+
+    def rest(obj, raw):
+        from spacepackets.cfdp.pdu.helper import PduFactory
         buf = raw + bytes(a["sfx"])
         d = PduFactory.from_raw(buf)
         if d is None:
